@@ -1422,6 +1422,7 @@ func main() {
 	// the same under the race detector: state shared between lists that no goroutine shares is
 	// reported from the happens-before relation, whether or not the accesses collide in this run
 	r.CasesProc("parallel-private/race", r.N(8, 100), ev.Opt{Bin: "race", Procs: 2, Workers: 1, AlwaysLog: true}, parallelCase)
+	r.CasesProc("seq/race-parallel", r.N(800, 20000), ev.Opt{Bin: "race", Procs: 2, Workers: 8, AlwaysLog: true, HangViolation: true, MaxCaseSeconds: 120}, seqCase)
 	// cold start: one fresh process per case, so that whatever operation the case begins
 	// with (on a zero value, a new list, a scripted list) is the first skip-list call of the process
 	r.CasesProc("cold-start/seq", 16, ev.Opt{Procs: 16, HangViolation: true}, seqCase)
